@@ -81,7 +81,7 @@ func (t *tcpHandler) handleConn(connSt *connInfo, pkg []byte) {
 		if !ok {
 			TLOG.Error("Failed to GetPacketTypeFromContext")
 		}
-		if cPacketType == basef.TARSONEWAY {
+		if cPacketType == basef.TARSONEWAY || len(rsp) == 0 {
 			return
 		}
 
